@@ -17,10 +17,9 @@ def o_awgn(spec, r, extra):
     return abs(s - want) > 1e-6 * want, f"awgn({'complex' if cplx else 'real'} x, snr={snr} dB): per-component noise scale {s:.6g}; signal power / 10^(snr/10) split over {w} component(s) requires {want:.6g} (noise power {10 * math.log10(w * s * s / px) + snr:+.2f} dB off)"
 def o_repro(spec, r, extra):
     if r['status'] != 'ok': return True, f"generator: {r['status']}"
-    mod, so = load(HARNESS); r2 = native_call(so, 'h_seed_gen', spec, 'i32')
     k = spec[1][1]; n = spec[2][1]; lo, hi = sgn(spec[3][1], 32), sgn(spec[4][1], 32)
-    y = r['outs'][0][:n]
-    if r2['status'] != 'ok' or any(not same_bits(a, b) for a, b in zip(y, r2['outs'][0][:n])): return True, f"rng({spec[0][1]}); {GN[k]} does not replay the same values: {y[:4]} vs {r2.get('outs', [[None]])[0][:4]}"
+    y = r['outs'][0][:n]; y2 = r['outs'][1][:n]
+    if any(not same_bits(a, b) for a, b in zip(y, y2)): return True, f"rng({spec[0][1]}); {GN[k]}; other draws; rng({spec[0][1]}); {GN[k]} does not replay the same values: {y[:4]} vs {y2[:4]}"
     if k in (2,) and any(not (lo <= v <= hi) for v in y): return True, f"randi({{{lo},{hi}}}) returned {[v for v in y if not lo <= v <= hi][:3]} outside its inclusive bounds"
     return False, 'ok'
 def o_randi(spec, r, extra):
@@ -31,7 +30,7 @@ def o_measure(spec, r, extra):
     if r['status'] != 'ok': return True, f"measure: {r['status']}"
     mod, so = load(HARNESS); r1 = native_call(so, 'h_measure', spec[:3] + [('f64', 1.0)], 'f64')
     nm = ['snr', 'sinad', 'thd'][spec[0][1]]
-    return abs(r['ret'] - r1['ret']) > 1e-6, f"{nm}(c*x) with c = {spec[3][1]} is {r['ret']!r} dB but {nm}(x) is {r1['ret']!r} dB"
+    return abs(r['ret'] - r1['ret']) > 1e-9, f"{nm}(c*x) with c = {spec[3][1]} is {r['ret']!r} dB but {nm}(x) is {r1['ret']!r} dB (scaling by a power of two is exact, so the two must agree)"
 ORACLES = {'awgn': o_awgn, 'repro': o_repro, 'randi': o_randi, 'measure': o_measure}
 
 def job_awgn(res, cplx, n, snr, seed):
@@ -108,7 +107,7 @@ def job_repro(res, seed, k, n, lo, hi):
     ok = all(same_bits(u, v) for u, v in zip(a, b)) and (k != 2 or all(lo <= v <= hi for v in a))
     sol = z3.Solver(); sol.add(z3.Not(z3.BoolVal(bool(ok)))); res.queries += 1
     if sol.check() == z3.unsat: res.ob(True, 'ground', f'rng({seed}); {GN[k]} replays bit-identically after interleaved draws' + (f' and stays in [{lo}, {hi}]' if k == 2 else ''))
-    else: confirm(res, PID, HARNESS, 'h_seed_gen', [('i32', seed), ('i32', k), ('i32', n), ('i32', lo & 0xffffffff), ('i32', hi & 0xffffffff), ('pf64', [0.0] * n)], 'i32', 'repro', ORACLES, f'rng:replay:{GN[k]}', f'rng({seed}); {GN[k]} does not replay / leaves its bounds')
+    else: confirm(res, PID, HARNESS, 'h_replay', [('i32', seed), ('i32', k), ('i32', n), ('i32', lo & 0xffffffff), ('i32', hi & 0xffffffff), ('pf64', [0.0] * n), ('pf64', [0.0] * n)], 'i32', 'repro', ORACLES, f'rng:replay:{GN[k]}', f'rng({seed}); {GN[k]} does not replay / leaves its bounds')
 
 class StopPath(Exception): pass
 def job_randi(res, lo, hi):
@@ -140,12 +139,12 @@ def job_scale(res, k, n):
     xv = [math.sin(2 * math.pi * 3.3 * i / n) + 0.1 * math.sin(2 * math.pi * 6.6 * i / n + 0.5) + 0.01 * math.sin(1.7 * i * i) for i in range(n)]
     C = z3.Real('c'); outs = []
     def setup(m):
-        m.assume(z3.And(C > z3.RealVal('1/1000'), C < 1000)); return [k, m.alloc_doubles(xv, 'x'), n, fsym('c')], None
+        m.assume(z3.And(C > z3.RealVal('1/10000'), C < 10000)); return [k, m.alloc_doubles(xv, 'x'), n, fsym('c')], None
     for p in explore(mod, '@h_measure', setup, max_paths=8, max_steps=200_000_000):
         if p.out != 'ret': res.inc(f'{nm}(c*x): path {p.out} {str(p.err)[:200]}'); continue
         res.absorb(p.m); outs.append(p)
     if len(outs) != 1:
-        res.inc(f'{nm}(c*x) n={n}: {len(outs)} feasible paths for c in (1e-3, 1e3) (the analysis decisions depend on the scale)'); return
+        res.inc(f'{nm}(c*x) n={n}: {len(outs)} feasible paths for c in (1e-4, 1e4) (the analysis decisions depend on the scale)'); return
     p = outs[0]; r = p.ret
     # result = 10*log10(ratio): the ratio itself must not depend on c
     if not (isF(r) and r.op == 'fmul' and any(isF(a) and a.op == 'call' and a.args[0] == 'log10' for a in r.args)):
@@ -155,7 +154,12 @@ def job_scale(res, k, n):
     R1 = z3.substitute(R, (C, z3.RealVal(1)))
     sol = z3.Solver(); sol.set('timeout', 120000); sol.add(*p.m.pc); sol.add(z3.Or(R - R1 > R1 * z3.RealVal('1/1000000000'), R1 - R > R1 * z3.RealVal('1/1000000000'))); c = sol.check(); res.queries += 1
     if c == z3.unsat: res.ob(True, 'NRA', f'{nm}(c*x) n={n}: forall c in (1e-3, 1e3): same analysis path and the power ratio is independent of c (c^2 cancels)')
-    elif c == z3.sat: confirm(res, PID, HARNESS, 'h_measure', [('i32', k), ('pf64', xv), ('i32', n), ('f64', model_float(model_dict(sol), 'c', 2.0))], 'f64', 'measure', ORACLES, f'scale:{nm}', f'{nm} changes when the signal is scaled')
+    elif c == z3.sat:
+        # replay at exact power-of-two scales (scaling is then exact in floating point) near both ends of the range and at the model's value
+        cm = model_float(model_dict(sol), 'c', 2.0)
+        for cv in (2.0 ** -13, 2.0 ** 13, 2.0 ** round(math.log2(max(cm, 1e-9)))):
+            if confirm(res, PID, HARNESS, 'h_measure', [('i32', k), ('pf64', xv), ('i32', n), ('f64', cv)], 'f64', 'measure', ORACLES, f'scale:{nm}', f'{nm} changes when the signal is scaled (solver: c = {cm})', suspect_is_inconclusive=False): break
+        else: res.inc(f'{nm}(c*x): solver found a scale where the ratio moves by more than 1e-9 relative, native replays at 2^-13, 2^13 and the model value agree to 1e-9 dB')
     else: res.inc(f'{nm}(c*x): undecided')
 
 JOBFNS = {'awgn': job_awgn, 'seed': job_seed, 'repro': job_repro, 'randi': job_randi, 'scale': job_scale}
